@@ -38,6 +38,9 @@ func (x *Evaluator) evalCall(call *ssa.Call, idx int, e *env, c *evalCtx) Val {
 	if callee == nil {
 		return x.symbolic(resultType(call, idx), "dyncall")
 	}
+	if isErrorType(resultType(call, idx)) {
+		return OpaqueV{"error"} // error values carry no template; never inline for them
+	}
 	if v, ok := x.evalKnown(callee, call, idx, e, c); ok {
 		return v
 	}
@@ -53,7 +56,15 @@ func (x *Evaluator) evalCall(call *ssa.Call, idx int, e *env, c *evalCtx) Val {
 	if e.depth >= x.MaxDepth {
 		return x.symbolic(resultType(call, idx), "too-deep:"+callee.Name())
 	}
+	if e.opaqueResult != nil && e.opaqueResult(callee) {
+		origin := "VALUE"
+		if len(cc.Args) > 1 {
+			origin = "VALUE(" + describeVal(x.evalC(cc.Args[1], e, c)) + ")"
+		}
+		return x.symbolic(resultType(call, idx), origin)
+	}
 	ne := x.bindCall(callee, cc.Args, e, c, clos, closEnv)
+	ne.opaqueResult = e.opaqueResult
 	return x.summarise(ne, idx)
 }
 
